@@ -114,8 +114,8 @@ CLAIMED = {
  "C10": dict(
    engine="K+C+P",
    technique="bounded symbolic execution: Cython parse-tree interpreter on the funcnet cross-correlation / symmetrisation kernels, clang-AST interpreter on the C surrogate-test and histogram mutual-information routines (log uninterpreted; case split over bin patterns with the symbol cells rewritten to constants), proxy-value execution of the Spearman rank transform and of the matrices handed to numpy.corrcoef; every comparison with the reference statistic is a z3 query (LRA/NRA/UF); sat models replayed on the compiled kernels / real classes against NumPy and SciPy references",
-   text="Bounded model checking: for every standardised array within the bound the lag function, its value and lag at the absolute maximum (both lag modes consistent) and the symmetrised matrices equal their definitions; the surrogate Pearson test equals the mean product; both C mutual-information routines assign every sample its bin and return sum p_lm log(p_lm/(p_l p_m)) of the joint histogram for every data set within the bound (symmetric where defined); the Spearman rank transform yields the textbook ranks for every ordering including ties and hands series as rows to corrcoef; the pure-Python and the compiled cross correlation agree at lag 0.",
-   note="Bounds: N<=3, tau_max<=2, window<=3 (kernels); N<=3, T<=3 (Pearson test); N=2, T<=3, 2 bins (MI; more in thorough); T<=4 x N<=2 (ranks). Exact reals (single-precision rounding of results outside); knn and gaussian estimators, information_transfer, partial correlation and the square-root standardisation inside cross_correlation are outside (DESIGN.md).",
+   text="Bounded model checking: for every standardised array within the bound the lag function, its value and lag at the absolute maximum (both lag modes consistent) and the symmetrised matrices equal their definitions; the surrogate Pearson test equals the mean product; both C mutual-information routines assign every sample its bin and return sum p_lm log(p_lm/(p_l p_m)) of the joint histogram for every data set within the bound (symmetric where defined); the Spearman rank transform yields the textbook ranks for every ordering including ties and hands series as rows to corrcoef; the pure-Python and the compiled cross correlation agree at lag 0; information_transfer hands every (i, j, tau) estimate the documented X, Y and conditioning samples (knn: exactly; gauss: the standardised conditions reach qr and the basis used is the one computed for that triple) and both lag modes book the values correctly.",
+   note="Bounds: N<=3, tau_max<=2, window<=3 (kernels); N<=3, T<=3 (Pearson test); N=2, T<=3, 2 bins (MI; more in thorough); T<=4 x N<=2 (ranks). Exact reals (single-precision rounding of results outside); the numerics of the knn / gaussian / binning estimators themselves (stubs returning one fresh value per call), partial correlation and the square-root standardisation inside cross_correlation are outside (DESIGN.md).",
    ref="DESIGN.md §3 C10"),
  "C05": dict(
    engine="P",
